@@ -16,6 +16,7 @@ there the discipline is proved (Lemmas/EventDisc, EventKeys, MptRound) and only 
 import Verif.Lemmas.MptStoreTrie
 import Verif.Lemmas.MptRound
 import Verif.Lemmas.MergeRound
+import Verif.Lemmas.RefKeyInj
 namespace Verif.Props.C04
 open Verif.Mpt Verif.MptStore Verif.MptStore.Collector
 
@@ -157,6 +158,28 @@ theorem C04_complete (H : Bytes → Bytes) (P0 : PStore) (t0 t : Node) (b0 : Tri
     · exact hsub b hb
     · exact Or.inr hb
   rw [hU a b haU hbU hk]
+
+/-- **Saved state is complete — from primitive assumptions on the hash.**  `C04_complete` with `KeyInjOn` discharged by
+    `keyInjOn_of_hyps`: on a sub-node-closed set `V` of canonical nodes with origins below 2^64 containing the start
+    tree's and the events' references, the hash has no collision between hash inputs of nodes of `V`, never returns the
+    empty string, and no two nodes of different type in `V` have the same (untagged) hash input — the negation of
+    exactly the confusions of known finding C02-type-confusion. -/
+theorem C04_complete_primitive (H : Bytes → Bytes) (P0 : PStore) (t0 t : Node) (b0 : Trie) (v : Nat) (es : List Event)
+    (V : Ref → Prop) (hy : KeyHyps H V) (hV : ∀ r, (r ∈ refs t0 [] ∨ r ∈ eventRefs es) → V r)
+    (hfresh : b0.cc.changes = [] ∧ b0.cc.deletes = [])
+    (h0 : Resolves H (Map.get P0.nodes) t0 []) (hw : WF t0) (hr : RoundEvents v t0 es t) :
+    Resolves H (Map.get (P0.applyAll (saveStream H (b0.applyEvents H es))).nodes) t [] :=
+  C04_complete H P0 t0 t b0 v es hfresh h0 hw hr
+    (fun a b ha hb hk => keyInjOn_of_hyps H V hy a b (hV a ha) (hV b hb) hk)
+
+/-- non-vacuity of `KeyHyps`: one leaf, the injective non-empty hash `x ↦ 0 :: x` -/
+example : KeyHyps (fun x => (0 : UInt8) :: x) (fun r => r = ⟨[], .leaf 1 [3] [65]⟩) where
+  closed := by intro r hr s hs; subst hr; simpa [refs] using hs
+  wf := by intro r hr; subst hr; simp [WFn]
+  org := by intro r hr; subst hr; simp [origin]
+  hne := by intro x; simp
+  hH := by intro a b ha hb _; subst ha; subst hb; rfl
+  hsep := by intro a b ha hb _; subst ha; subst hb; simp [sameCtor]
 
 /-- **Saved state is complete — a round with one merged transaction.**  The block trie `b0` (fresh collector) executes
     the round `esP` from `t0` to `t1`; a child opened on `t1` (fresh collector `c0`) executes the round `esC` to `t2`;
